@@ -108,7 +108,7 @@ def check_case(case, ctx):
         if s != b58.encode_check(rexp.payload(v, False)):
             raise Violation("C14/export/string", "export string under version %#x differs from the reference" % v)
         tag = "watch-only %s from %s... (export depth %d)" % (cls.__name__, s[:4], len(case["export"]))
-        st_, WO = call(cls.from_extended_key, s)
+        st_, WO = call(cls.from_extended_key, extended_key=s) if purpose == 49 else call(cls.from_extended_key, s)
         if st_ == "exc":
             raise Violation("C14/import/raised", "%s: from_extended_key raised %r" % (tag, WO))
         if WO.watch_only is not True:
